@@ -1914,10 +1914,10 @@ def SIR_homogeneous_meanfield_from_graph(G, tau, gamma, initial_infecteds=None,
     if rho is not None and initial_recovereds is not None:
         raise EoN.EoNError("cannot define both initial_recovereds and rho")
     kave = G.size()*2.0/G.order()
+    if initial_recovereds is None:
+        initial_recovereds = []
     if initial_infecteds is not None:
         I0 = len(initial_infecteds)
-        if initial_recovereds is None:
-            initial_recovereds = []
     elif rho is not None:
         I0 = rho*G.order()
     else:
